@@ -43,14 +43,14 @@ def run(tier, seed):
         chk.seen(b[:400])
         return il
 
-    n = 60 if quick else 1500
+    n = 60 if quick else 400
     for i in range(n):
         b, exp = cborgen.layout(rng)
         run_one(b, "layout", exp)
         if i < 2:
             chk.sample({"layout_hex": b.hex()[:160], "flags": exp["flags"], "count": exp["count"]})
         # every truncation point (long layouts: all points near field boundaries + stride)
-        pts = range(len(b)) if len(b) < 400 or not quick else sorted(set(list(range(0, 120)) + list(range(len(b) - 120, len(b))) + list(range(0, len(b), 7))))
+        pts = range(len(b)) if len(b) < 400 else sorted(set(list(range(0, 120 if quick else 200)) + list(range(len(b) - (120 if quick else 200), len(b))) + list(range(0, len(b), 7 if quick else 3))))
         for t in pts:
             run_one(b[:t], "truncated", "reject")
         for k in range(1, 9):
@@ -87,14 +87,14 @@ def run(tier, seed):
         for b in (hdr_at + item, hdr_ed + item, hdr_both + item):
             run_one(b, "hostile-cbor")
     # arbitrary bytes
-    for i in range(1500 if quick else 60000):
+    for i in range(1500 if quick else 30000):
         L = rng.choice([0, 1, 36, 37, 38, 55, 60, 100, 200])
         b = bytearray(rng.randbytes(L))
         if L > 32 and rng.random() < 0.7:
             b[32] = rng.choice([0x41, 0x45, 0x81, 0xC5, 0x01, 0xC1])
         run_one(bytes(b), "arbitrary")
     # CBOR-aware mutations of layouts: flip/insert/delete bytes in the CBOR part
-    for i in range(600 if quick else 30000):
+    for i in range(600 if quick else 12000):
         b, exp = cborgen.layout(rng)
         b = bytearray(b)
         if len(b) > 40:
